@@ -874,6 +874,9 @@ impl PeerHandler {
         let res = crate::verif::write_file_in_two_steps(&part, &piece_rx.buff).await;
         #[cfg(not(feature = "verif"))]
         let res = fs::write(&part, &piece_rx.buff).await;
+        // File-system seam: the replacement of an existing piece file can be held back here.
+        #[cfg(feature = "verif")]
+        crate::verif::hold_replacement_of(&name).await;
         let res = match res {
             Ok(()) => fs::rename(&part, &name).await,
             Err(e) => Err(e),
